@@ -57,6 +57,13 @@ def phases(rng, n, pattern=None):
         if n > 2 and rng.random() < 0.5:
             keep = rng.random(n) < 0.5
             v = np.where(keep, v, rng.uniform(-math.pi, math.pi, size=n))
+    elif pattern == "huge":
+        # "arbitrary real phases": far from the origin (1e2 .. 1e15), where e^{i phi} depends on every bit of phi
+        v = rng.choice([-1.0, 1.0], size=n) * 10.0 ** rng.uniform(2, 15, size=n)
+        if n > 1:
+            keep = rng.random(n) < 0.5
+            keep[int(rng.integers(0, n))] = True
+            v = np.where(keep, v, rng.uniform(-math.pi, math.pi, size=n))
     elif pattern == "generic":
         v = rng.uniform(-math.pi, math.pi, size=n)
     elif pattern == "equal":
